@@ -157,6 +157,10 @@ Definition proj_vrank (chk : bool) (ws : list N) : list (res bool) :=
   ++ (if valid then [eqr (hand_rank_value chk ws) vv] else [])
   ++ (if Nat.eqb (length ws) 5 then [eqr (evaluate_five_cards chk ws) vv] else []).
 
+(* ---- C09 `vsame`: the validated value is the plain value (so the chain holds for the validated entry points too) *)
+Definition proj_vsame (chk : bool) (ws : list N) : list (res bool) :=
+  [eqr (hand_rank_value_validated chk ws) (hand_rank_value chk ws)].
+
 (* ---- C06 `hrself`: reported record = conversion of the value (plain, validated); not Invalid, consistent *)
 Definition proj_hrself (chk : bool) (ws : list N) : list (res bool) :=
   let hrv := hand_rank_value chk ws in
